@@ -18,7 +18,7 @@ def run(res, replay=None):
                 "spheres: Welzl / EPOS-6 on point sets (n = 1, duplicates, co-spherical, random) and spheres of spheres: containment; Welzl: minimality certificate "
                 "(no smaller sphere through <= 4 support points contains all points). non-trivial = distinct case")
     rng = C.Rng(seed * 1217 + 7)
-    wd = os.path.join(C.CACHE, "run", "c20")
+    wd = C.rundir("c20")
     os.makedirs(wd, exist_ok=True)
     cases = []
     if replay:
